@@ -284,6 +284,11 @@ def run_case(case: dict) -> dict:
         written = []       # per example: {name: (canonical bytes, vclass, presentation, canonical value)}
         n_examples = 7
         refused = 0
+        reuse_buffers = case["vseed"] % 3 == 0     # the caller refills ONE preallocated array per attribute
+        shuffle_keys = case["vseed"] % 2 == 0      # the value dict is built in another key order than declared
+        buffers: dict = {}
+        obs["cases_with_reused_buffers"] += int(reuse_buffers)
+        obs["cases_with_reordered_keys"] += int(shuffle_keys)
         with dataset.filler() as filler:
             for k in range(n_examples):
                 values, record = {}, {}
@@ -304,8 +309,17 @@ def run_case(case: dict) -> dict:
                         if candidate is not None:
                             chosen, presented = name, candidate
                             break
+                    if reuse_buffers and a["dtype"] not in ("str", "bytes") and a["shape"]:
+                        # same ndarray object for every example, overwritten in place between writes
+                        buffer = buffers.setdefault(a["name"], np.zeros(tuple(a["shape"]), dtype=a["dtype"]))
+                        buffer[...] = canonical
+                        presented, chosen = buffer, "reused-buffer"
                     values[a["name"]] = presented
                     record[a["name"]] = (canonical_bytes(canonical, a["dtype"]), vclass, chosen, canonical)
+                if shuffle_keys:
+                    names = list(values)
+                    prng.shuffle(names)
+                    values = {name: values[name] for name in names}
                 try:
                     filler.write_example(values=values, split="train")
                     written.append(record)
